@@ -210,3 +210,39 @@ func VerifC20_known_two_statements_one_target() {
 	VerifC20_dsl_redirects()
 	c20FixedStatement = -1
 }
+
+// The target of a redirected statement is evaluated for EVERY record, however it is written: a
+// concatenation, a string literal interpolating regex captures ("t_\1" after =~), a local variable,
+// a function call, a map element.  Four records with g in {a, b} chosen per record; every form must
+// route record i to "t_<g>" — exactly those targets, each holding its records in stream order.
+//verif:opts engine-only maxpaths=100000
+func VerifC20_dsl_redirect_target_forms() {
+	c20Stubs()
+	vals := []string{"a", "b"}
+	var gs []string
+	for i := 0; i < 4; i++ {
+		gs = append(gs, vals[verifChoice("g", 2)])
+	}
+	stmts := []string{
+		verifDSL(`tee > "t_".$g, $*`),
+		verifDSL(`if ($g =~ "^(.)$") { tee > "t_\1", $* }`),
+		verifDSL(`t = "t_".$g; tee > t, $*`),
+		verifDSL(`tee > sub($g, "^", "t_"), $*`),
+		verifDSL(`m = {"a": "t_a", "b": "t_b"}; tee > m[$g], $*`),
+		verifDSL(`if ($g =~ "^(.)$") { print > "t_\1", "g=".$g.",x=".$x }`),
+		verifDSL(`if ($g =~ "^(.)$") { emit > "t_\1", mapsum($*, {}) }`),
+		verifDSL(`if ($g =~ "^(.)$") { tee >> "t_\1", $* }`),
+		verifDSL(`if ($g =~ "^(.)$") { print >> "t_\1", "g=".$g.",x=".$x }`),
+	}
+	passed := c20Feed(verifPut(stmts[verifChoice("statement", len(stmts))]), gs)
+	verifAssert(passed == len(gs), "C20/target-forms/main-stream-continues")
+	want := map[string]string{}
+	for i, g := range gs {
+		want["t_"+g] += c20Line(g, i)
+	}
+	verifAssert(len(c04Files) == len(want), "C20/target-forms/exactly-the-computed-targets")
+	for name, text := range want {
+		verifAssert(string(c04Files[name]) == text, "C20/target-forms/target-holds-exactly-what-was-routed-to-it-in-order")
+	}
+	verifReach("C20/target-forms/end")
+}
